@@ -83,6 +83,12 @@ def _serialize_element(
         if param.kind == param.KEYWORD_ONLY
         and getattr(element, param.name, param.default) != param.default
     }
+    if schema.get("items") == []:
+        # An empty tuple of items is not a valid schema array: every item is
+        # an additional item.
+        schema["items"] = schema.pop("additionalItems", True)
+        if schema["items"] is True:
+            del schema["items"]
     if not schema.get("properties", True):
         del schema["properties"]
     if "properties" in schema:
